@@ -52,6 +52,12 @@ package config
 //@   uses hashlemmas.smt2
 //@   goal (forall ((a S_config_CertificateContent) (b S_config_CertificateContent)) (=> (and (vIsStatic a) (vIsSet a) (= (blankV a) (blankV b))) (and (= (vFrom a) (vFrom b)) (= (vUntil a) (vUntil b)))))
 
+// The statement of C13 also wants an edit of a relative validity (duration, or until without from) to be seen: what
+// is hashed has to determine the configured period.
+//@ lemma hash_sensitive_relative_validity @C13
+//@   uses hashlemmas.smt2
+//@   goal (forall ((a S_config_CertificateContent) (b S_config_CertificateContent)) (=> (and (vIsSet a) (vIsSet b) (not (vIsStatic a)) (not (vIsStatic b)) (= (blankV a) (blankV b))) (= (span (vFrom a) (vUntil a)) (span (vFrom b) (vUntil b)))))
+
 // ---- subject attribute names (C03) and profile subject constraints (C09)
 
 //@ func tables
